@@ -4,12 +4,12 @@
 ROOT=$1; v=$2; p=$3
 [ -f $ROOT/$p/out/$v/patch.diff ] || { echo "SEEDBATCH $p-$v missing"; exit 0; }
 c=$(/verif/tools/seedconfirm.sh $p $v $ROOT/$p/out/$v 2>&1 | tee -a /root/work/seedconfirm.log | grep -o "confirmed=[a-z]*")
-out=$(SEEDEVAL_DIR=/root/work/seedeval-$p /verif/tools/seedeval.sh $p /verif/seeded/$p-$v/patch.diff 2>&1)
+out=$(SEEDEVAL_DIR=/root/work/seedeval-$p-$v /verif/tools/seedeval.sh $p /verif/seeded/$p-$v/patch.diff 2>&1)
 echo "$out" > /root/work/seedlane-$p-$v.log
 rc=$(echo "$out" | grep -o "exit=[0-9]*" | tail -1)
 cls=$(echo "$out" | grep -o "\[\(property\|correspondence\)/[^]]*\]" | sort | uniq -c | sort -rn | head -3 | awk '{print $2}' | tr '\n' ' ')
 brk=$(echo "$out" | grep -c "^BROKEN")
 nf=$(echo "$out" | grep -c "no-failing-input-found")
 echo "SEEDBATCH $p-$v $c $rc broken=$brk nofail=$nf $cls"
-cp /root/work/seedeval-$p/last.log /root/work/seedlane-$p-$v.full.log 2>/dev/null
-rm -rf /root/work/seedeval-$p
+cp /root/work/seedeval-$p-$v/last.log /root/work/seedlane-$p-$v.full.log 2>/dev/null
+rm -rf /root/work/seedeval-$p-$v
